@@ -47,6 +47,30 @@ class VC:
         return self.verdict == "sat"
 
 
+def _expanded_goal(goal):
+    """Large equational goal  a == b  ->  expand(numerator(a - b)) == 0  (radicals reduced by sqrt(u)**2 = u).
+    A pure normalisation step of VC generation; the solver still decides the normal form."""
+    import signal
+
+    def on_alarm(*a):
+        raise TimeoutError()
+    if not isinstance(goal, sp.Eq) or sp.count_ops(goal) < 120:
+        return None
+    old = signal.signal(signal.SIGALRM, on_alarm)
+    signal.alarm(30)
+    try:
+        n, _ = sp.fraction(sp.together(goal.lhs - goal.rhs))
+        e = sp.expand(n)
+        if sp.count_ops(e) * 2 < sp.count_ops(goal):
+            return sp.Eq(e, 0) if e != 0 else sp.true
+        return None
+    except (TimeoutError, RecursionError):
+        return None
+    finally:
+        signal.alarm(0)
+        signal.signal(signal.SIGALRM, old)
+
+
 def build_smt2(vc: VC, congruence: bool = True, max_fact_size: int | None = None) -> str:
     """SMT-LIB text of  facts /\\ side axioms /\\ denominators non-zero /\\ not goal.
     Uninterpreted applications are Ackermann-reduced to constants; with ``congruence`` the reduction
@@ -55,7 +79,14 @@ def build_smt2(vc: VC, congruence: bool = True, max_fact_size: int | None = None
     s = z3.Solver()
     chosen = vc.facts if max_fact_size is None else [f for f in vc.facts if sp.count_ops(f) <= max_fact_size]
     facts = [enc.boolean(f) for f in chosen]
-    goal = None if vc.expect == "sat" else enc.boolean(vc.goal)
+    sgoal = vc.goal
+    if vc.expect != "sat":
+        if "expanded_goal" not in vc.meta:
+            vc.meta["expanded_goal"] = _expanded_goal(vc.goal)
+        if vc.meta["expanded_goal"] is not None:
+            sgoal = vc.meta["expanded_goal"]
+            vc.detail_pre = "goal normalised by polynomial expansion"
+    goal = None if vc.expect == "sat" else enc.boolean(sgoal)
     for f in facts:
         s.add(f)
     if goal is not None:
@@ -94,6 +125,21 @@ def _run_z3_api(smt2: str, timeout_ms: int, tactic: str | None = None):
     return str(r), model, time.time() - t0, reason
 
 
+def _try_hint(smt2: str, hint: dict, timeout_ms: int = 5000):
+    """A contract may supply typical parameter values; they only restrict the search for a model (sound for sat)."""
+    from .sym import smt_name
+    s = z3.Solver()
+    s.set("timeout", timeout_ms)
+    s.from_string(smt2)
+    t0 = time.time()
+    for k, v in hint.items():
+        s.add(z3.Real(smt_name(k)) == z3.RealVal(str(v)))
+    if s.check() == z3.sat:
+        m = s.model()
+        return "sat", {d.name(): str(m[d]) for d in m.decls()}, time.time() - t0
+    return "unknown", {}, time.time() - t0
+
+
 def _instantiate_search(smt2: str, tries: int, seed: int, index_consts=(), per_try_ms: int = 4000):
     """Model search for a query the solver left open.  The plain real constants and the index-like
     Ackermann constants are fixed to random small rationals that are consistent with the *linear* facts
@@ -122,36 +168,47 @@ def _instantiate_search(smt2: str, tries: int, seed: int, index_consts=(), per_t
     idx = set(index_consts)
     free = [c for n, c in sorted(consts.items()) if ((not n.startswith("app.") and "!" not in n) or n in idx) and n != "pi"]
 
-    def is_linear(e):
-        k = e.decl().kind()
-        if k in (z3.Z3_OP_MUL,):
-            nonconst = [c for c in e.children() if not z3.is_rational_value(c) and not z3.is_int_value(c)]
-            if len(nonconst) > 1:
-                return False
-        if k in (z3.Z3_OP_DIV, z3.Z3_OP_POWER, z3.Z3_OP_ITE, z3.Z3_OP_IDIV, z3.Z3_OP_MOD):
-            return False
-        return all(is_linear(c) for c in e.children())
-    linear = [a for a in assertions if is_linear(a)]
+    free_ids = {c.get_id() for c in free}
+
+    def only_free(e, seen):
+        """the assertion mentions no constant other than the ones we are going to fix"""
+        if e.get_id() in seen:
+            return True
+        seen.add(e.get_id())
+        if z3.is_const(e) and e.decl().kind() == z3.Z3_OP_UNINTERPRETED:
+            return e.get_id() in free_ids
+        return all(only_free(c, seen) for c in e.children())
+    linear = [a for a in assertions if only_free(a, set())]     # the "precondition" part: small, possibly nonlinear
     t0 = time.time()
-    for _ in range(tries):
+    for attempt in range(tries):
+        keep_prob = (1.0, 0.8, 0.6, 0.4)[attempt % 4]
         lin = z3.Solver()
-        lin.set("timeout", 500)
+        lin.set("timeout", 1500)
         for a in linear:
             lin.add(a)
-        if lin.check() == z3.unsat:
+        if lin.check() != z3.sat:
             return "unknown", {}, time.time() - t0
         order = list(free)
         rnd.shuffle(order)
-        chosen = []
-        for c in order:
-            for _k in range(6):
+        # diversify: pin a few constants to random values when the precondition part stays satisfiable
+        for c in order[:max(1, len(order) // 3)]:
+            for _k in range(2):
                 v = z3.RealVal(rnd.choice(pool))
                 lin.push()
                 lin.add(c == v)
                 if lin.check() == z3.sat:
-                    chosen.append((c, v))
                     break
                 lin.pop()
+        if lin.check() != z3.sat:
+            continue
+        pm = lin.model()
+        chosen = []
+        for c in order:
+            if rnd.random() > keep_prob:
+                continue
+            val = pm.eval(c, model_completion=True)
+            if z3.is_rational_value(val):
+                chosen.append((c, val))
         s = z3.Solver()
         s.set("timeout", per_try_ms)
         for a in assertions:
@@ -161,6 +218,8 @@ def _instantiate_search(smt2: str, tries: int, seed: int, index_consts=(), per_t
         if s.check() == z3.sat:
             m = s.model()
             return "sat", {d.name(): str(m[d]) for d in m.decls()}, time.time() - t0
+        if time.time() - t0 > 120:
+            break
     return "unknown", {}, time.time() - t0
 
 
@@ -183,7 +242,7 @@ def _run_cli(cmd: list, smt2: str, timeout_s: float):
 
 
 def _worker(args):
-    name, fast, smt2, timeout_ms, second_opinion, index_consts = args
+    name, fast, smt2, timeout_ms, second_opinion, index_consts, hint = args
     secs0 = 0.0
     for label, text in (fast or []):
         # weaker queries (small facts only / no congruence): only an unsat answer is used
@@ -192,6 +251,14 @@ def _worker(args):
             secs0 += s0
             if verdict == "unsat" and not second_opinion:
                 return name, "unsat", "z3-5.1", {}, secs0, label
+        except z3.Z3Exception:
+            pass
+    if hint:
+        try:
+            vh, mh, sh = _try_hint(smt2, hint)
+            secs0 += sh
+            if vh == "sat" and not second_opinion:
+                return name, "sat", "z3-5.1+hint", mh, secs0, "model found under the contract's parameter hint"
         except z3.Z3Exception:
             pass
     try:
@@ -261,7 +328,7 @@ def discharge(vcs: list, second_opinion: bool = False, timeout_ms: int | None = 
                 fast.append(("small-facts-only", build_smt2(vc, congruence=False, max_fact_size=60)))
             if vc.meta.get("apps"):
                 fast.append(("without-congruence", build_smt2(vc, congruence=False)))
-        jobs.append((vc.name, fast, vc.smt2, tmo, second_opinion, vc.meta.get("index_consts", [])))
+        jobs.append((vc.name, fast, vc.smt2, tmo, second_opinion, vc.meta.get("index_consts", []), vc.meta.get("hint")))
     byname = {vc.name: vc for vc in vcs}
     if len(byname) != len(vcs):
         seen = set()
